@@ -17,7 +17,11 @@ import (
 	"time"
 
 	otter "github.com/maypok86/otter/v2"
+	"github.com/maypok86/otter/v2/stats"
 )
+
+// number of loader invocations (Load or BulkLoad calls) of the current script: statistics must record exactly that many loads
+var flightInvocations atomic.Int64
 
 type flightLoader struct {
 	stamp   *atomic.Int64
@@ -29,6 +33,7 @@ type flightLoader struct {
 }
 
 func (l flightLoader) run(keys []int) {
+	flightInvocations.Add(1)
 	enter := l.stamp.Add(1)
 	<-l.gate
 	exit := l.stamp.Add(1)
@@ -84,12 +89,17 @@ func concFlight(args []string, out *bufio.Writer) {
 	for i := *from; i < *from+*n; i++ {
 		r := &rng{s: scriptSeed(*seed, "concflight", i)}
 		fmt.Fprintf(out, "script concflight-%d-%d\n", *seed, i)
-		c := otter.Must(&otter.Options[int, int]{Logger: nopLogger{}})
+		counter := stats.NewCounter()
+		c := otter.Must(&otter.Options[int, int]{Logger: nopLogger{}, StatsRecorder: counter})
+		flightInvocations.Store(0)
 		var stamp atomic.Int64
 		rounds := 5 + r.intn(15)
 		for round := 0; round < rounds; round++ {
 			if r.chance(0.25) {
-				if !supersedeRound(c, r, round, &stamp, out) {
+				ok := supersedeRound(c, r, round, &stamp, out)
+				sn := counter.Snapshot()
+				fmt.Fprintf(out, "stats loadsrec=%d invocations=%d\n", sn.LoadSuccesses+sn.LoadFailures, flightInvocations.Load())
+				if !ok {
 					break
 				}
 				continue
@@ -177,6 +187,8 @@ func concFlight(args []string, out *bufio.Writer) {
 			if hangs.Load() != 0 {
 				break
 			}
+			sn := counter.Snapshot()
+			fmt.Fprintf(out, "stats loadsrec=%d invocations=%d\n", sn.LoadSuccesses+sn.LoadFailures, flightInvocations.Load())
 		}
 	}
 }
@@ -195,6 +207,7 @@ type gatedLoader struct {
 
 func (l gatedLoader) Load(_ context.Context, k int) (int, error) {
 	inv := int(l.calls.Add(1)) - 1
+	flightInvocations.Add(1)
 	enter := l.stamp.Add(1)
 	oc := "ok"
 	if inv < len(l.gates) {
